@@ -25,7 +25,7 @@ package fiber
 // Request paths starting with "//" are not sent (fasthttp reads them as scheme-relative URIs).
 //
 // Bounds (FVC_TIER):
-//   quick     all patterns with <= 2 parameters, L0 from {"/", "/a", "/ab/", "//", "/-", "/.", "/a/", "/a-", "/a.", "/a/a"},
+//   quick     all patterns with <= 2 parameters, L0 from {"/", "/a", "/ab/", "/-", "/.", "/a/", "/a-", "/a.", "/a/a"},
 //             Li from {"/", "-", ".", "/a", "/ab/"}; all fillings over {"", "a", "B", "x/y" (only * and +), "-", "%41"};
 //             8 configurations; 5 request variations                                  (< 60 s)
 //   thorough  the same with <= 3 parameters (for 3 parameters: L0 from {"/", "/a", "/ab/", "/a/"}, values without
@@ -37,8 +37,11 @@ package fiber
 //   optional-slash-bucket  the route's first literal is exactly 3 bytes, ends in '/', the slash is optional (an optional
 //                          parameter or '*' follows) and the normalised request path is the literal without that slash
 //                          (2 bytes): dispatch answers 404 (and therefore also disagrees with RoutePatternMatch)
-//   rpm-trailing-slash     without StrictRouting and a request path that ends in '/': RoutePatternMatch == false, dispatch 200
+//   star-trailing-slash    pattern "/*/" without StrictRouting: the value reported for GET /a/ is "a/" instead of "a"
+//   rpm-trailing-slash     without StrictRouting and a request path that ends in '/': RoutePatternMatch does not cut the
+//                          trailing slashes of the path as dispatch does (it answers as dispatch for the cut path)
 //   rpm-no-unescape        with UnescapePath and a request path that contains '%': RoutePatternMatch works on the raw path
+//                          (it answers as dispatch for the decoded path)
 
 import (
 	"fmt"
@@ -99,7 +102,7 @@ func fvcC03Build(segs []fvcC03Seg) fvcC03Pattern {
 var (
 	fvcC03Kinds    = []byte{':', '?', '*', '+'}
 	fvcC03Lits     = []string{"/", "-", ".", "/a", "/ab/"}
-	fvcC03FirstAll = []string{"/", "/a", "/ab/", "//", "/-", "/.", "/a/", "/a-", "/a.", "/a/a"}
+	fvcC03FirstAll = []string{"/", "/a", "/ab/", "/-", "/.", "/a/", "/a-", "/a.", "/a/a"}
 	fvcC03FirstFew = []string{"/", "/a", "/ab/", "/a/"}
 	fvcC03Values   = []string{"", "a", "B", "x/y", "-", "%41"}
 )
@@ -286,14 +289,10 @@ func fvcC03RefMatches(p fvcC03Pattern, path string, caseSensitive, strict bool) 
 			if strings.HasPrefix(rest, s.lit) && rec(i+1, rest[len(s.lit):]) {
 				return true
 			}
-			// a slash before optional parameters that are all left out may be missing too
-			if strings.HasSuffix(s.lit, "/") && rest == s.lit[:len(s.lit)-1] {
-				for _, t := range segs[i+1:] {
-					if t.kind != '?' && t.kind != '*' {
-						return false
-					}
-				}
-				return true
+			// the slash before an optional parameter that is left out (or at the very end) may be missing too
+			if strings.HasSuffix(s.lit, "/") && rest == s.lit[:len(s.lit)-1] &&
+				(i+1 == len(segs) || segs[i+1].kind == '?' || segs[i+1].kind == '*') {
+				return rec(i+1, "")
 			}
 			return false
 		}
@@ -305,6 +304,42 @@ func fvcC03RefMatches(p fvcC03Pattern, path string, caseSensitive, strict bool) 
 		return false
 	}
 	return rec(0, path)
+}
+
+// A variation of a filled path can itself be the filled path of other values (pattern "/*", GET /a/ is the filling
+// with "a/"): the reported values are then accepted if they are exactly what was put in under that reading.
+func fvcC03ExactFilling(p fvcC03Pattern, path string, c fvcC03Config, body string) bool {
+	parts := strings.Split(body, "|")
+	if len(parts) != len(p.names)+1 || parts[0] != "ok" {
+		return false
+	}
+	vi := 0
+	for _, s := range p.segs {
+		if s.kind != 0 {
+			if !fvcC03ValueOK(s.kind, parts[1+vi]) {
+				return false
+			}
+			vi++
+		}
+	}
+	if c.unescape {
+		path = fvcC03Unescape(path)
+	}
+	filled := fvcC03Fill(p, parts[1:])
+	if !c.cs {
+		return fvcC03Lower(filled) == fvcC03Lower(path) && fvcC03ValuesIn(parts[1:], path)
+	}
+	return filled == path
+}
+
+// every value occurs in the path with its own letter case
+func fvcC03ValuesIn(vals []string, path string) bool {
+	for _, v := range vals {
+		if !strings.Contains(path, v) {
+			return false
+		}
+	}
+	return true
 }
 
 type fvcC03Config struct{ cs, strict, unescape bool }
@@ -325,6 +360,17 @@ func fvcC03Normalise(path string, c fvcC03Config) string {
 		for len(path) > 1 && path[len(path)-1] == '/' {
 			path = path[:len(path)-1]
 		}
+	}
+	return path
+}
+
+// the request path as RoutePatternMatch would have to be given it to agree with dispatch (decoded, trailing slashes cut)
+func fvcC03TrimSlashes(path string, c fvcC03Config) string {
+	if c.unescape {
+		path = fvcC03Unescape(path)
+	}
+	for len(path) > 1 && path[len(path)-1] == '/' {
+		path = path[:len(path)-1]
 	}
 	return path
 }
@@ -393,9 +439,11 @@ func (r *fvcC03Run) pattern(p fvcC03Pattern, c fvcC03Config, fillings [][]string
 		switch expect {
 		case fvcC03Match:
 			wantBody := "ok|" + strings.Join(want, "|")
-			if !matched || body != wantBody {
+			if !matched || (body != wantBody && !fvcC03ExactFilling(p, path, c, body)) {
 				if !matched && fvcC03BucketFinding(p, path, c) {
 					r.known["optional-slash-bucket: Get(\"/a/:id?\") does not answer GET /a (404); Get(\"/ab/:id?\") answers GET /ab"]++
+				} else if matched && p.text == "/*/" && !c.strict && strings.HasSuffix(path, "/") {
+					r.known["star-trailing-slash: Get(\"/*/\") answers GET /a/ with Params(\"*\") == \"a/\" instead of \"a\" (no StrictRouting: the pattern is cut to \"/*\", whose value is the rest of the raw path)"]++
 				} else {
 					r.fail("pattern %q cfg %v GET %q (%s): want 200 with Params %q, got %d %q", p.text, c, path, what, want, status, body)
 				}
@@ -409,10 +457,12 @@ func (r *fvcC03Run) pattern(p fvcC03Pattern, c fvcC03Config, fillings [][]string
 			switch {
 			case rpm && !matched && fvcC03BucketFinding(p, path, c):
 				r.known["optional-slash-bucket: Get(\"/a/:id?\") does not answer GET /a (404); Get(\"/ab/:id?\") answers GET /ab"]++
-			case !rpm && matched && !c.strict && len(path) > 1 && path[len(path)-1] == '/':
-				r.known["rpm-trailing-slash: RoutePatternMatch(\"/foo/\", \"/foo\") == false while GET /foo/ is answered by Get(\"/foo\") (no StrictRouting)"]++
-			case c.unescape && strings.Contains(path, "%"):
+			case c.unescape && strings.Contains(path, "%") && RoutePatternMatch(fvcC03Unescape(path), p.text, cfg) == matched:
+				// the answer for the decoded path is the dispatcher's
 				r.known["rpm-no-unescape: RoutePatternMatch(\"/%61\", \"/a\", Config{UnescapePath: true}) == false while GET /%61 is answered by Get(\"/a\")"]++
+			case !c.strict && len(path) > 1 && path[len(path)-1] == '/' && RoutePatternMatch(fvcC03TrimSlashes(path, c), p.text, cfg) == matched:
+				// the answer for the path without its trailing slashes is the dispatcher's
+				r.known["rpm-trailing-slash: RoutePatternMatch(\"/foo/\", \"/foo\") == false while GET /foo/ is answered by Get(\"/foo\") (no StrictRouting)"]++
 			default:
 				r.fail("pattern %q cfg %v path %q: RoutePatternMatch == %v but dispatch answered %d", p.text, c, path, rpm, status)
 			}
